@@ -1373,13 +1373,15 @@ class SpaceManager(SharedSpaceOperations):
         if not self._can_add(space, name, CellsImpl):
             raise ValueError("Cannot create cells '%s'" % name)
 
-        if not is_valid_name(name) and formula:
-            # The name is taken from the definition
-            defname = Formula(formula).name
+        if not is_valid_name(name):
+            # The name is taken from the definition, or generated
+            defname = Formula(formula).name if formula else None
             if is_valid_name(defname):
-                if not self._can_add(space, defname, CellsImpl):
-                    raise ValueError("Cannot create cells '%s'" % defname)
                 name = defname
+            else:
+                defname = space.cellsnamer.peek_next(space.namespace)
+            if not self._can_add(space, defname, CellsImpl):
+                raise ValueError("Cannot create cells '%s'" % defname)
 
         cells = UserCellsImpl(
             space=space, name=name, formula=formula,
